@@ -325,7 +325,13 @@ fn run_scenario(sc: &Scenario) -> Vec<Failure> {
     if sc.op != Op::Process {
         let mut want_syncs = vec![START];
         want_syncs.extend(exp.syncs.iter());
-        if syncs != want_syncs {
+        // a final jump that does not move the time (target == current time) may or may not repeat the synchronize:
+        // the property only speaks about NEW times
+        let mut alt = want_syncs.clone();
+        if alt.len() >= 2 && alt[alt.len() - 1] == alt[alt.len() - 2] {
+            alt.pop();
+        }
+        if syncs != want_syncs && syncs != alt {
             fails.push(Failure { check: "one-sync-per-new-time", props: "C18", detail: format!("synchronize was called with {:?}, expected {:?}", syncs, want_syncs) });
         }
     } else if syncs.len() != 1 {
